@@ -1,7 +1,7 @@
 (* C26 — Each received PING is answered exactly once with the same payload.
    [receive_frame] is H2Connection._receive_frame (one frame of a receive_data call; frames of a call are
    processed in order and their events concatenated, Model/Connection.v api_receive). *)
-From H2 Require Import Base.Prelude Model.FsmTypes Gen.Tables Model.Types Model.ConnState Model.Connection Proofs.C26Proofs.
+From H2 Require Import Base.Prelude Model.FsmTypes Gen.Tables Model.Types Model.ConnState Model.Connection Proofs.C26Proofs Proofs.C26Flood.
 
 (* For every payload and every state of a connection that is not closed: a PING without ACK appends
    exactly one PING ACK with the identical payload and reports exactly one PingReceived; a PING ACK
@@ -29,6 +29,22 @@ Theorem C26_ping_allowed_unless_closed :
   forall s, (conn_transition s CI_RECV_PING = None <-> s = C_CLOSED) /\ (conn_transition s CI_SEND_PING = None <-> s = C_CLOSED).
 Proof. intros s. destruct (ping_allowed_unless_closed s) as (A & B & _). split; assumption. Qed.
 
+(* A whole receive_data call carrying any number of PING frames (ACK or not, any payloads; the flood is
+   a list of arbitrary length): one ACK per non-ACK PING, in arrival order, identical payloads; one
+   event per frame in order; nothing is left in the buffer and nothing else changes.
+   ping_frame p = (RPing (fst p) (snd p), 8) : a PING frame with its 8-byte body length. *)
+Theorem C26_ping_flood_answered_in_order :
+  forall ps c, state_open c -> 8 <= c_max_out_frame c -> 8 <= c_max_in_frame c -> c_inbuf c = [] ->
+    api_receive (map ping_frame ps) c =
+    (cset_out c (c_out c ++ map (fun p => FPing true (snd p)) (filter (fun p => negb (fst p)) ps)),
+     Ok (map ping_event ps)).
+Proof. intros ps c Ho Hm Hi Hb. rewrite <- ping_flood_payloads. exact (ping_flood ps c Ho Hm Hi Hb). Qed.
+
+Example C26_ex_flood :
+  let c := conn_new (mkconfig true true true true true false) in
+  8 <= c_max_in_frame c /\ c_inbuf c = [].
+Proof. split; [vm_compute; discriminate | reflexivity]. Qed.
+
 Example C26_ex : state_open (conn_new (mkconfig true true true true true false)) /\
                  8 <= c_max_out_frame (conn_new (mkconfig true true true true true false)).
 Proof. split; [discriminate | vm_compute; discriminate]. Qed.
@@ -37,3 +53,4 @@ Print Assumptions C26_each_ping_answered_once_same_payload.
 Print Assumptions C26_ping_emits_one_frame.
 Print Assumptions C26_ping_rejects_other_lengths.
 Print Assumptions C26_ping_allowed_unless_closed.
+Print Assumptions C26_ping_flood_answered_in_order.
